@@ -71,6 +71,8 @@ def run(tier):
                 why = "parsing the emitted bytes with the crate does not yield the original value: %s" % vlib.json.dumps(o["parsed"])[:200]
             elif o["bytes2"] != o["bytes"]:
                 why = "re-serializing the parsed value does not reproduce the same bytes"
+            elif "parsed_via_client_hello" in o and not vlib.jeq(o["parsed_via_client_hello"], norm_wrapped):
+                why = "parsing the emitted extensions with the ClientHello variant of the parser does not yield the original values: %s" % vlib.json.dumps(o["parsed_via_client_hello"])[:200]
             elif o.get("again") != o["bytes"]:
                 why = "serializing the same value a second time, after an unrelated write into a too small buffer failed, gave different bytes (%s...)" % str(o.get("again"))[:60]
             elif o.get("exact_ok") is False:
